@@ -5,8 +5,10 @@ import re
 import shutil
 
 from .. import env, gen, rawdecode
-from ..common import F, G, P, FLAGN, names_of
+from ..common import F, G, P, FLAGN, names_of, pathlib_mask
 from wcmatch import pathlib as WP, wcmatch as WM
+
+PATHLIB_MASK = pathlib_mask()
 
 SPEC = {
     'rule': ('every string up to the length bound over the metacharacter alphabets, random strings up to length 40 and '
@@ -171,8 +173,8 @@ def exercise(ctx, text, fnames, root, as_bytes):
     if w is not None:
         call(ctx, 'WcMatch.match', pat, fnames, w.match)
     if not as_bytes:
-        pf = gf & WP.FLAG_MASK
-        plf = tuple(f for f in glf if FLAGN[f] & WP.FLAG_MASK)
+        pf = gf & PATHLIB_MASK
+        plf = tuple(f for f in glf if FLAGN[f] & PATHLIB_MASK)
         call(ctx, 'PurePath.match', pat, plf, WP.PurePosixPath('a/b').match, pat, flags=pf)
         call(ctx, 'PurePath.globmatch', pat, plf, WP.PurePosixPath('a/b').globmatch, pat, flags=pf)
         call(ctx, 'PureWindowsPath.match', pat, plf, WP.PureWindowsPath('a/b').match, pat, flags=pf)
